@@ -90,6 +90,10 @@ var c19Shapes = []c19Shape{
 	{"hs-ssl-enc/client", "client", security.SecurityRequired, []security.AuthMethod{security.AuthSSL}, security.SecurityRequired, false, false, 0},
 }
 
+// c19AfterBase + k as the stall argument means "fire the cancellation right after conn op k-1
+// completed" instead of "stall conn op k-1".
+const c19AfterBase = 1 << 20
+
 type c19Out struct {
 	err      error
 	returned bool
@@ -106,6 +110,13 @@ func c19Plain(sh c19Shape, stall int, ctx context.Context, onStall func()) *c19O
 	a, b := netsim.Pipe(w, hsClientAddr, hsServerAddr)
 	a.ReadChunk = sh.trickle
 	stalledCh := make(chan struct{})
+	afterOp := 0
+	if stall >= c19AfterBase {
+		// not a stall: onStall (the cancellation) runs right after conn op `afterOp-1` has completed,
+		// i.e. between two I/O steps - the next step starts with a context that is already over
+		afterOp, stall = stall-c19AfterBase, 0
+		a.AfterOp, a.OnAfterOp = afterOp-1, func() { out.stalled = true; onStall() }
+	}
 	switch {
 	case stall == -1:
 		a.StallAt = 1 << 30
@@ -194,7 +205,7 @@ func c19Plain(sh c19Shape, stall int, ctx context.Context, onStall func()) *c19O
 		<-done
 		out.returned = false
 	}
-	out.closed = a.IsClosed() || stall > 0 && a.ClosedSoon(3*time.Second)
+	out.closed = a.IsClosed() || (stall > 0 || afterOp > 0) && a.ClosedSoon(3*time.Second)
 	out.ops = a.Ops
 	return out
 }
@@ -231,10 +242,15 @@ func c19Handshake(sh c19Shape, stall int, ctx context.Context, onStall func()) *
 		_, sc = mk()
 	}
 	o := hsOpts{ClientCfg: cc, ServerCfg: sc, App: true, Stalled: make(chan struct{}), Watchdog: 10 * time.Second}
+	afterOp := 0
+	if stall >= c19AfterBase {
+		afterOp, stall = stall-c19AfterBase, -1
+		o.OnAfterOp = func() { out.stalled = true; onStall() }
+	}
 	if sh.role == "client" {
-		o.ClientCtx, o.ClientStall, o.ClientReadChunk = ctx, stall, sh.trickle
+		o.ClientCtx, o.ClientStall, o.ClientReadChunk, o.ClientAfterOp = ctx, stall, sh.trickle, afterOp
 	} else {
-		o.ServerCtx, o.ServerStall, o.ServerReadChunk = ctx, stall, sh.trickle
+		o.ServerCtx, o.ServerStall, o.ServerReadChunk, o.ServerAfterOp = ctx, stall, sh.trickle, afterOp
 	}
 	if stall > 0 {
 		go func() {
@@ -305,6 +321,7 @@ func C19Plan() *vlib.Plan {
 		Assume: []string{"free-running (context.AfterFunc callbacks run on standard-library goroutines); FS/KERBEROS/SCITOKENS shapes excluded (need a mount namespace / a KDC / an issuer)"},
 	}
 	p.Gen = func(tier string, yield func(vlib.Case)) {
+		c19BetweenCases(yield)
 		counts := map[string]int{}
 		for _, sh := range c19Shapes {
 			sh := sh
@@ -371,6 +388,32 @@ func C19Plan() *vlib.Plan {
 						judge(res, "real-timeout-while-stalled", out, context.DeadlineExceeded, true)
 					}
 					res.Sample = fmt.Sprintf("%s stall at conn op %d of %d", sh.name, k, N)
+					return res
+				}})
+			}
+			// the context ends BETWEEN two I/O steps: right after conn op k has completed (k not the last)
+			for k := 0; k+1 < N; k++ {
+				k := k
+				yield(vlib.Case{ID: fmt.Sprintf("%s/ctx-ends-after-op@%d", sh.name, k), Run: func() *vlib.Result {
+					res := &vlib.Result{}
+					ctx, cancel := context.WithCancel(context.Background())
+					out := c19Exec(sh, c19AfterBase+k+1, ctx, cancel)
+					cancel()
+					if out.stalled {
+						res.Nontrivial++
+						judge(res, "cancel-between-steps", out, context.Canceled, true)
+					} else {
+						res.Outcome("between-steps-point-not-reached")
+					}
+					mc := newManualCtx()
+					out = c19Exec(sh, c19AfterBase+k+1, mc, mc.fire)
+					if out.stalled {
+						res.Nontrivial++
+						judge(res, "deadline-between-steps", out, context.DeadlineExceeded, true)
+					} else {
+						res.Outcome("between-steps-point-not-reached")
+					}
+					res.Sample = fmt.Sprintf("%s context ends after conn op %d of %d", sh.name, k, N)
 					return res
 				}})
 			}
